@@ -10,7 +10,7 @@ git apply $OUT/patch.diff || { echo "CONFIRM $DEST: patch does not apply"; exit 
 lines=$(grep -cE '^[+-][^+-]' $OUT/patch.diff)
 cargo build --offline -q 2>&1 | tail -3
 suite=$(cargo test --workspace --no-fail-fast --offline 2>&1 | grep -E "^test result" | tr '\n' ' ')
-echo "$suite" | grep -q "131 passed; 0 failed" || { echo "CONFIRM $DEST: suite does not pass with the change: $suite"; git checkout -q -- .; exit 1; }
+echo "$suite" | grep -qE "1[3-9][0-9] passed; 0 failed" || { echo "CONFIRM $DEST: suite does not pass with the change: $suite"; git checkout -q -- .; exit 1; }
 echo "$suite" | grep -q "FAILED\|[1-9][0-9]* failed" && { echo "CONFIRM $DEST: failures in suite"; git checkout -q -- .; exit 1; }
 cp $OUT/demo.rs tests/demo_$low.rs
 FEAT=""; if grep -q "serde" $OUT/demo.rs; then FEAT="--features serde"; fi
